@@ -1,8 +1,8 @@
 (* C02 (liveness half), close, layer 3: ONE SOCKET OF A CLOSING CONNECTION UNDER THE EVENTS OF A RUN.
    [gview cx s t st una nxt ws tm la M]: the socket is in state [st], SND.UNA = una, SND.NXT = nxt,
    RCV.NXT = ws, its timer is [tm], the last ACK it sent acknowledged [la], the highest sequence number
-   it ever sent is [M]; nothing is queued in either direction, no delayed-ACK timer runs, the window it
-   advertised last is the current one.
+   it ever sent is [M]; nothing is queued in either direction, no delayed-ACK timer runs, no window
+   update is due.
      step_quiet       recv, a refused send, a close() that changes nothing, a poll with nothing due: the view
                       is kept, nothing is emitted
      step_fin_rx      the peer's FIN arrives in order: CLOSE-WAIT / TIME-WAIT, RCV.NXT + 1, the ACK is owed
@@ -36,7 +36,7 @@ Record csock (cx : ctx) (s : socket) (t : tuple) (st : tcp_state) (una nxt ws : 
   cs_ws : tcp_window_start s = ws;
   cs_adt : s_ack_delay_timer s = ADIdle;
   cs_rx0 : rb_len (s_rx_buffer s) = 0;
-  cs_lw : s_remote_last_win s = tcp_scaled_window s
+  cs_wtu : tcp_window_to_update s = Ok false
 }.
 
 Definition gview (cx : ctx) (s : socket) (t : tuple) (st : tcp_state) (una nxt ws : Z) (tm : timer) (la : Z)
@@ -74,10 +74,31 @@ Proof.
   unfold tcp_scaled_window, rb_window. rewrite Ec, El, Es. reflexivity.
 Qed.
 
+Lemma veq_wtu s' s : veq s' s -> tcp_window_to_update s' = tcp_window_to_update s.
+Proof.
+  intros V. pose proof (veq_scaled_window _ _ V) as Hsw.
+  destruct V as (E1 & _ & _ & _ & _ & _ & _ & _ & _ & Ec & El & Ews & Ela & Elw & Es & _ & _ & Esuf).
+  unfold tcp_window_to_update, tcp_last_scaled_window. fold (tcp_window_start s') (tcp_window_start s).
+  rewrite Esuf, E1, Hsw, Ela, Elw, Es, Ews. reflexivity.
+Qed.
+
+(* the receive side is unchanged and the state stays among those in which window updates are sent *)
+Lemma rxv_eq_wtu s' s :
+  RI.rxv_eq s' s -> s_syn_unacked_in_fin_wait s' = s_syn_unacked_in_fin_wait s ->
+  (s_state s' = s_state s \/ (s_state s = FinWait1 /\ s_state s' = FinWait2)) ->
+  tcp_window_to_update s' = tcp_window_to_update s.
+Proof.
+  intros R Esuf Hst. pose proof (RI.rxv_eq_scaled_window _ _ R) as Hsw.
+  pose proof (RI.rxv_eq_window_start _ _ R) as Hws.
+  destruct R as (_ & _ & _ & _ & Ela & Elw & Es).
+  unfold tcp_window_to_update, tcp_last_scaled_window. fold (tcp_window_start s') (tcp_window_start s).
+  rewrite Esuf, Hsw, Ela, Elw, Es, Hws. destruct Hst as [-> | (-> & ->)]; reflexivity.
+Qed.
+
 Lemma veq_gview cx s' s t st una nxt ws tm la M :
   veq s' s -> gview cx s t st una nxt ws tm la M -> gview cx s' t st una nxt ws tm la M.
 Proof.
-  intros V (C & Ht & Hla & Hm). pose proof (veq_scaled_window _ _ V) as Hsw.
+  intros V (C & Ht & Hla & Hm). pose proof (veq_wtu _ _ V) as Hsw.
   destruct V as (E1 & E2 & E3 & E4 & E5 & E6 & E7 & E8 & E9 & E10 & E11 & E12 & E13 & E14 & E15 & ((A1 & A2 & A3) & A4) & E17 & E18).
   destruct C as [K C1 C2 C3 C4 C5 C6 C7].
   split; [|rewrite E2, E13, E8; auto].
@@ -180,7 +201,9 @@ Proof.
   destruct R14 as ((A1 & A2 & A3) & A4). destruct R15 as (X1 & X2 & X3).
   split; [|split; [exact R3|]; split; [congruence|congruence]].
   constructor; try congruence.
-  destruct K. constructor; rewrite ?R4, ?R5, ?R6, ?R12, ?R13, ?A2, ?A3, ?X1; auto.
+  - destruct K. constructor; rewrite ?R4, ?R5, ?R6, ?R12, ?R13, ?A2, ?A3, ?X1; auto.
+  - unfold tcp_window_to_update. rewrite R2. destruct (s_syn_unacked_in_fin_wait s'); [reflexivity|].
+    destruct Hst as [-> | ->]; reflexivity.
 Qed.
 
 (* the ACK of the FIN arrives *)
@@ -209,9 +232,13 @@ Proof.
   subst rep. split; [reflexivity|].
   rewrite C1 in R2, R3. split.
   - intros ->. cbn [tcp_state_eqb] in R2, R3.
-    pose proof (RI.rxv_eq_window_start _ _ R8) as Hws. pose proof (RI.rxv_eq_scaled_window _ _ R8) as Hsw.
+    pose proof (RI.rxv_eq_window_start _ _ R8) as Hws.
+    destruct R10 as (X1 & X2 & X3).
+    assert (Hwtu : tcp_window_to_update s' = Ok false).
+    { rewrite (rxv_eq_wtu s' s R8); [exact C7 | rewrite (X3 (k_suf _ _ _ K)), (k_suf _ _ _ K); reflexivity|].
+      right. split; [exact C1 | exact R2]. }
     destruct R8 as (Q1 & Q2 & Q3 & Q4 & Q5 & Q6 & Q7).
-    destruct R9 as ((A1 & A2 & A3) & A4). destruct R10 as (X1 & X2 & X3).
+    destruct R9 as ((A1 & A2 & A3) & A4).
     split; [|split; [exact R4|]; split; [congruence|congruence]].
     constructor; try congruence.
     destruct K. constructor; rewrite ?R3, ?R5, ?R6, ?Q2, ?Q7, ?A2, ?A3, ?X1; auto.
@@ -263,7 +290,9 @@ Proof.
   destruct fs_rx0 as (Q1 & Q2 & Q3 & Q4 & Q5). destruct fs_cfg0 as (A1 & A2 & A3).
   split; [|split; [exact Ht'|]; split; [congruence|]].
   - constructor; try congruence.
-    destruct K. constructor; rewrite ?fs_tuple0, ?fs_tx0, ?fs_una0, ?fs_win0, ?Q2, ?Q5, ?A2, ?A3, ?fs_pfr0, ?fs_suf0; auto.
+    + destruct K. constructor; rewrite ?fs_tuple0, ?fs_tx0, ?fs_una0, ?fs_win0, ?Q2, ?Q5, ?A2, ?A3, ?fs_pfr0, ?fs_suf0; auto.
+    + apply fresh_wtu; [rewrite fs_la0, Hws; reflexivity | rewrite fs_lw0, Hsw; reflexivity
+                        | rewrite Q5; exact (k_shift _ _ _ K) | rewrite Q2; exact (k_rxwf _ _ _ K)].
   - rewrite <- C2. apply fs_msx0. rewrite Hm, C2. exact Hlim.
 Qed.
 
@@ -292,7 +321,9 @@ Proof.
   destruct as_rx0 as (Q1 & Q2 & Q3 & Q4 & Q5). destruct as_cfg0 as (A1 & A2 & A3).
   split; [|split; [congruence|]; split; [congruence|congruence]].
   constructor; try congruence.
-  destruct K. constructor; rewrite ?as_tuple0, ?as_tx0, ?as_una0, ?as_win0, ?as_rtte0, ?Q2, ?Q5, ?A2, ?A3, ?as_pfr0, ?as_suf0; auto.
+  - destruct K. constructor; rewrite ?as_tuple0, ?as_tx0, ?as_una0, ?as_win0, ?as_rtte0, ?Q2, ?Q5, ?A2, ?A3, ?as_pfr0, ?as_suf0; auto.
+  - apply fresh_wtu; [rewrite as_la0, Hws; reflexivity | rewrite as_lw0, Hsw; reflexivity
+                      | rewrite Q5; exact (k_shift _ _ _ K) | rewrite Q2; exact (k_rxwf _ _ _ K)].
 Qed.
 
 (* a poll with nothing due; [tw] = the TIME-WAIT timer has expired *)
@@ -315,7 +346,7 @@ Proof.
   { rewrite Htm. destruct Htmc as [-> | [(e & -> & He) | (e & ->)]]; reflexivity. }
   { rewrite Htm. destruct Htmc as [-> | [(e & -> & He) | (e & ->)]]; reflexivity. }
   { unfold tcp_ack_to_transmit. rewrite Hla, C4. apply seq_lt_refl. }
-  { apply fresh_wtu; [rewrite Hla, C4; reflexivity | exact C7 | exact (k_shift _ _ _ K) | exact (k_rxwf _ _ _ K)]. }
+  { exact C7. }
   split; [reflexivity|]. rewrite Htm in Hr.
   destruct Hr as [(Hc & ->) | (Hc & ->)]; [left | right]; (split; [exact Hc|]).
   - apply cveq_veq, dt_pre_cveq.
